@@ -301,8 +301,8 @@ def mismatch_class(kname, key, exp, got, ref, nspec):
     d = ref[key]["desc"]
     if kname == "term_prob" and d.transitions is not None and not got:
         return "listed-descriptor-has-no-termination-edges"
-    if kname == "trans_prob" and len(exp) > 1 and nz and all(abs(v - 1.0) < 1e-12 for v in nz.values()):
-        return "token-junction-each-1.0"
+    if kname == "trans_prob" and len(exp) > 1 and len(nz) > 1 and all(abs(v - 1.0) < 1e-12 for v in nz.values()):
+        return "token-junction-each-1.0"  # SEVERAL admissible descriptors, each with probability 1.0
     if kname == "trans_prob":
         # left terminal with a transition list: does the graph state the plain weight law instead?
         ei = key[0]
